@@ -259,16 +259,13 @@ def step (tbl : ResolveTable) (n : Node) (s : Data × Ctx) : Except Err (Data ×
     (match resolve tbl n c ⟨src, none⟩ with
      | .error e => .error e
      | .ok v =>
-       if v.isNull then .ok (d, c)
-       else
-         let c₁ := c.set dst v
-         if c₁.has src then .ok (d, c₁.erase src) else .error (.missingKey src))
+       let c₁ := c.set dst v
+       if c₁.has src then .ok (d, c₁.erase src) else .error (.missingKey src))
   | .delete key =>
     (match resolve tbl n c ⟨key, none⟩ with
      | .error e => .error e
-     | .ok v =>
-       if v.isNull then .ok (d, c)
-       else if c.has key then .ok (d, c.erase key) else .error (.missingKey key))
+     | .ok _ =>
+       if c.has key then .ok (d, c.erase key) else .error (.missingKey key))
   | .template parts out =>
     (match resolveAll tbl n c n.params with
      | .error e => .error e
@@ -299,7 +296,7 @@ def step (tbl : ResolveTable) (n : Node) (s : Data × Ctx) : Except Err (Data ×
                (match mapBeh n.beh n.declared ps xs with
                 | .error e => .error e
                 | .ok (ys, ws) => .ok (Data.coll n.outT ys, applyWrites c ws))
-             | _ => .error .typeGate)
+             | _ => .error (.proc "slicer on a non-collection"))
           else
             (match applyBeh n.beh n.declared (dataVal d) ps with
              | .error e => .error e
@@ -312,7 +309,7 @@ def step (tbl : ResolveTable) (n : Node) (s : Data × Ctx) : Except Err (Data ×
                (match mapBeh n.beh n.declared ps xs with
                 | .error e => .error e
                 | .ok (ys, _) => .ok (d, c.set ck (.arr ys)))
-             | _ => .error .typeGate)
+             | _ => .error (.proc "slicer on a non-collection"))
           else
             (match applyBeh n.beh n.declared (dataVal d) ps with
              | .error e => .error e
